@@ -10,64 +10,64 @@ TRUST = ('CPython\'s ast parser; prolog.g4 / the generated parser are what ANTLR
          'repository is imported or executed')
 
 P = {
- 'C01': dict(tech='symbolic rule extraction from compile_body + reference-semantics soundness per rule; emitter template extraction (abstract interpretation) + skeleton parse; variable-coverage and declaration-order rules',
+ 'C01': dict(tech='symbolic rule extraction from compile_body + reference-semantics soundness per rule; emitter template extraction (abstract interpretation) + skeleton parse; variable-coverage and declaration-order rules; bounded partial evaluation of the compiler source by the checker\'s own AST evaluator (compile_program / visitProgram on sample clauses and programs: scope, head, per-clause statelessness, grouping; all bodies to depth 3 + spine bodies to depth 4 against the reference semantics); engine-side necessary conditions (binder ownership, undo on all exits, one yield, arity guard, \\= by unification)',
      text='Static, in part. Decides: fresh variables per activation and distinct "_" (counter discipline on the CFG, DFA disjointness of generated and source names, variables-property coverage, declarations before the body); every one of the rewrite/base rules extracted from compile_body is sound against a reference semantics for all behaviours of its sub-bodies (so A,B nests left-to-right, depth-first, by induction over the recursion tree); head unification is folded around the body with complementary alias/unify tests; the emitter is total on every code tree the compiler can build (incl. empty bodies). Does NOT decide that the answer sequence equals SLD resolution for all programs and queries - that is value-level over unbounded inputs; this is the largest undecided part of the property.',
      ref='4 C01'),
- 'C02': dict(tech='CFG path rules (at most one yield, dominance of the length guard), ownership of the binding cell, typestate of held sub-generators',
+ 'C02': dict(tech='CFG path rules (at most one yield, dominance of the length guard), ownership of the binding cell, typestate of held sub-generators; no-cached-binding-state rule (no predicate of the binding cell stored in a field); atoms compared by name',
      text='Static, in part. Decides on every path of every unifier: at most one yield; the argument-list unifier compares both lengths with !=/== before any element access and cannot yield on the unequal side; only the variable class writes the binding cell, only when unbound, only a dereferenced value, never the variable itself; sub-unifications stay open until the yield. Most-generality of the bindings for all term pairs and binding stacks is value-level and NOT decided.',
      ref='4 C02'),
- 'C03': dict(tech='must-pass-through on CFGs with throw/close edges out of every yield; escape analysis of binder generators',
+ 'C03': dict(tech='must-pass-through on CFGs with throw/close edges out of every yield; escape analysis of binder generators; no-cached-binding-state rule; finalisation of the query in evaluate_bounded',
      text='Static. Every store that binds a variable is followed, on every CFG path to every exit of the generator frame (return, fall-through, exception, and the throw and close edges out of each yield), by the store that unbinds it; only the variable class writes the cell; no generator that may hold bindings is stored where it outlives its frame, closed before the yield that reports its answer, or exhausted before a yield. These are the mechanisms the property rests on; CPython\'s immediate finalisation of unreferenced suspended generators is trusted, as the repository itself does.',
      ref='4 C03'),
- 'C04': dict(tech='write-effect and ownership analysis over all non-generated modules',
+ 'C04': dict(tech='write-effect and ownership analysis over all non-generated modules; definition-time state rule (decorator closures); engine methods store only on self or on objects created on the spot',
      text='Static ownership argument. There is no location that two engine instances, or two suspended queries over disjoint variables, can both reach and one can write: no function writes or mutates module-level or class-level state, every mutated engine field is bound fresh per instance, mutable defaults are only read, scripts run on a copy of this instance\'s context built from its own members, and the transitive write effects of the query path are confined to binding cells and atom interning. Schedules cannot falsify this by sampling; thread atomicity inside CPython and ANTLR\'s caches are trusted.',
      ref='4 C04'),
- 'C05': dict(tech='symbolic rule extraction + soundness of every cut-handling/sub-body-moving rule; bounded semantic check of the emitter templates; call-protocol rules',
+ 'C05': dict(tech='symbolic rule extraction + soundness of every cut-handling/sub-body-moving rule; bounded semantic check of the emitter templates; call-protocol rules; bounded partial evaluation of compile_program on t :- Body for all bodies to depth 3 (thorough: spine bodies to depth 4); emitter evaluated on sample trees when templates cannot be extracted; the visitor\'s operator mapping',
      text='Static. Every compiler rule that handles ! or moves a sub-body that may cut across ; or -> is extracted from compile_body and decided against the reference semantics (including how the clause ended) for all behaviours of the surrounding goals; the emitter templates are shown to turn the cut into an exit from the single function that holds all clauses of the predicate (mini-language trees to depth 3 with a sentinel next clause, emitted Python interpreted by a small interpreter); the engine never reads a yielded value; combined definitions are separate generators. Cuts in opaque positions are excluded by the statement.',
      ref='4 C05'),
- 'C06': dict(tech='symbolic rule extraction + soundness per rule; exhaustiveness; template extraction + bounded semantic check + protocol invariants; grammar/parser-table reading; symbolic extraction of the visitor\'s operator mapping',
+ 'C06': dict(tech='symbolic rule extraction + soundness per rule; exhaustiveness; template extraction + bounded semantic check + protocol invariants; grammar/parser-table reading; symbolic extraction of the visitor\'s operator mapping; bounded partial evaluation of compile_program on t :- Body for all bodies to depth 3 and spine bodies to depth 4 (39 661); goals with activation-dependent behaviour in the emitter check; emitted text compiled (never executed)',
      text='Static. Every rewrite and base rule for ; -> \\+ true fail is sound for all behaviours of its sub-bodies and all continuations; compile_body and compile_expression are exhaustive over the classes the flow analysis finds; the emitted block/flag protocol implements "leave block L" (bounded semantic check to depth 3 plus the invariants P1-P6 that carry it to unbounded nesting); precedence and associativity are read from prolog.g4 and from the generated parser\'s precedence predicates; the visitor maps each operator to the right node with operands in order.',
      ref='4 C06'),
- 'C07': dict(tech='kind inference at store-API call sites, dereference-discipline dataflow, definite assignment, escaping-exception fix-point, branch-shape rules',
+ 'C07': dict(tech='kind inference at store-API call sites, dereference-discipline dataflow, definite assignment, escaping-exception fix-point, branch-shape rules; sibling agreement of store-changing builtins on fields that shadow the store; stored facts immutable and renaming copies (C13 rules); queries write no engine state',
      text='Static. Decides the shape clauses: zero-argument facts use the same key kind as everything else; goals arriving in a bound variable are inspected through get_value on every path; every dispatch on the kind of a goal is total; no exception raised by the engine can leave a database builtin; asserta/assertz select front/back in every branch; retractall returns a single-success iterator on every publishing path; clear() resets what __init__ creates. The contents after an arbitrary history are values and NOT decided (list discipline under suspension is C14).',
      ref='4 C07'),
- 'C08': dict(tech='dominance on the CFG of query(), key-template normalisation, guard-shape rules, exception fix-point',
+ 'C08': dict(tech='dominance on the CFG of query(), key-template normalisation, guard-shape rules, exception fix-point; helper-inlined views of query/register_function; derived-table rule (memo/combined-definition fields follow every write of eval_context); lookup confinement; sibling agreement of exact/variadic lookups; load-filter rule decided on DFAs; layer D: goals compile to query(name, args)',
      text='Static. Facts are enumerated before definitions (dominance); one key format name_<arity>/name_n shared by register_function, query() and the emitted def line; the variadic key is only the default of the exact one; an unknown predicate cannot raise; combining passes (old, new) and the helper runs them in order as separate generators; a load writes engine state only after exec on a copy succeeded; API names are not addressable as predicates. Answers of arbitrary histories as values are NOT decided.',
      ref='4 C08'),
- 'C09': dict(tech='dereference-discipline dataflow, definite assignment, handler-enclosure rule for next(), flag-product CFG for \\=, shape rules for findall/call',
+ 'C09': dict(tech='dereference-discipline dataflow, definite assignment, handler-enclosure rule for next(), flag-product CFG for \\=, shape rules for findall/call; derived-table rule; sibling agreement of lookups; dereference closure of get_value',
      text='Static. The meta-call builtins look at goals through their values, handle atom and compound goals through one resolver, append extra arguments after the goal\'s own, cannot turn "no answer" into an exception (no unguarded next() in a generator, every local definitely assigned, no engine exception escapes), findall exhausts the goal collecting get_value(template) and unifies once afterwards, \\= yields only on the no-solution path (flag-product CFG). That findall\'s list holds the right instances is value-level (C15 covers the dereferencing).',
      ref='4 C09'),
- 'C10': dict(tech='typestate by dominance on the CFG of the pipeline function, all-paths-raise check of the listener, grammar and generated-parser reading',
+ 'C10': dict(tech='typestate by dominance on the CFG of the pipeline function, all-paths-raise check of the listener, grammar and generated-parser reading on the helper-inlined view of the pipeline (helpers, helper methods and helper objects pasted in); no handler swallows a rejection without rewinding the token stream',
      text='Static. Between constructing lexer/parser and using the parse tree (1) both get a listener whose syntaxError raises on every path, on every path before the parse call, and (2) an end-of-input test whose other side always raises dominates the use of the tree (the start rule has no EOF and the ANTLR tool is not available to regenerate the parser). With ANTLR trusted to recognise exactly the grammar, (1)+(2) are necessary and sufficient for "complete sentence or exception".',
      ref='4 C10'),
- 'C11': dict(tech='template extraction + skeleton parse over all code trees; value-flow analysis + DFA inclusion for lexical classes; nesting-chain rendering',
+ 'C11': dict(tech='template extraction + skeleton parse over all code trees; value-flow analysis + DFA inclusion for lexical classes; nesting-chain rendering; emitter evaluated on sample trees by the checker\'s evaluator when it does not decompose into templates; emitted text compiled (never executed); visitProgram grouping evaluated on a sample program; load-filter rule',
      text='Static. For every code tree the compiler can build (bounded depth, empty lists where the flow analysis allows) the instantiated templates parse, hold exactly one generator def per (name, arity) key and nothing else; every raw hole receiving source text has a lexical class (token regexes read from prolog.g4) included in the class its position needs (decimal integers, ASCII identifiers minus reserved words - decided on DFAs); loop nesting is bounded by an emitter check that raises. What the loaded functions compute is C01.',
      ref='4 C11'),
- 'C12': dict(tech='taint analysis: inclusion-based value flow from ANTLR tokens into the raw holes of the extracted templates, DFA inclusion/disjointness',
+ 'C12': dict(tech='taint analysis: inclusion-based value flow from ANTLR tokens into the raw holes of the extracted templates, DFA inclusion/disjointness; template-independent identifier rule on the value flow of emitter results; lookup confinement in query()',
      text='Static and complete for the compile pipeline: every flow from token text (or any non-constant string) into a raw hole of an emitter template is enumerated; each must be repr()-quoted or of a lexical class that can only be a harmless identifier or integer, disjoint (DFA intersection) from the context keys and from every name the templates bind or generate; callee names are constants of the engine context; the internal commit marker cannot be forged from source; loaded code runs on a copy of the context with empty __builtins__; debug output cannot leave its comment. What user-registered Python predicates do is out of scope.',
      ref='4 C12'),
- 'C13': dict(tech='allocation-freshness analysis (greatest fix-point of renaming-copy functions) + dereference discipline',
+ 'C13': dict(tech='allocation-freshness analysis (greatest fix-point of renaming-copy functions) + dereference discipline; facts immutable after construction',
      text='Static. What assert stores, and what each use of a fact hands to unification, comes out of a function proved to be a renaming copy: every return is an immutable value (parameter narrowed to neither Variable nor Functor), a freshly allocated Variable (directly or through a memo whose entries are all fresh), or a Functor rebuilt from recursive copies; one memo per fact; the copy inspects the dereferenced term. So no Variable or Functor object is shared between caller, store and users. Equality of the copy with the dereferenced original is C15 + values.',
      ref='4 C13'),
- 'C14': dict(tech='store-alias analysis + CFG reachability (in-place mutation vs suspendable walks; publish-after-yield derivation)',
+ 'C14': dict(tech='store-alias analysis + CFG reachability (in-place mutation vs suspendable walks; publish-after-yield derivation); facts immutable after construction; equality-based removal; sibling agreement on fields that shadow the store',
      text='Static. Decides the two shapes that make a logical update view possible: no suspendable loop walks a store-aliased list while any in-place mutation of a store alias (or of an already published list) exists; every list a generator publishes is re-derived from a store read made after its most recent yield; removals are by identity under a presence test on the fresh list. Termination of particular update loops follows from these rules but is not itself decided.',
      ref='4 C14'),
- 'C15': dict(tech='dereference-closure rule on the return expressions of every get_value implementation, with dominating-test narrowing',
+ 'C15': dict(tech='dereference-closure rule on the return expressions of every get_value implementation, with dominating-test narrowing; field reads through any receiver in to_python; binder ownership; the renaming copy dereferences',
      text='Static. Every get_value implementation returns self only when atomic or on the unbound path, the result of get_value, or a constructor applied to such values - so by structural induction the value of a ground answer shares no Variable with the live terms; to_python reads components only through get_value/to_python; findall exports get_value results. Equality with the mathematical instance is value-level.',
      ref='4 C15'),
- 'C16': dict(tech='constant propagation / agreement rules across compiler, engine context and to_python; interface completeness; exhaustiveness',
+ 'C16': dict(tech='constant propagation / agreement rules across compiler, engine context and to_python; interface completeness; exhaustiveness; layer D head/literal rule on clauses with look-alike terms; source text reaches the lexer unchanged; anonymous-variable numbering',
      text='Static, in part. Decides the agreements the statement depends on: same constructor names in compiler output and engine context; string contents travel only through repr(); literal kinds built by the visitor = kinds compile_expression handles; list constants agree between listpair/makelist/ATOM_NIL and to_python; every term class implements the interface; atoms unify by name, are interned per instance and re-interned on clear(). NOT decided: that unquoteString inverts the lexer\'s quoting, numeric values, to_python results as values.',
      ref='4 C16'),
- 'C17': dict(tech='must-pass-through on the CFG of evaluate_bounded with every call treated as may-raise',
+ 'C17': dict(tech='must-pass-through on the CFG of evaluate_bounded with every call treated as may-raise; no handler in the query machinery (incl. wrappers stored in the context) catches the depth error; queries write no engine state',
      text='Static. The recursion limit is restored on every path from the acquire to every exit; the depth error is handled around the whole enumeration without re-raise; the result is only appended to, once per iteration, and returned on every non-raising path; the query is closed on every exit (so its bindings are undone, given C03.U1 which is re-checked). Where the limit strikes and maximality of the prefix are run-time matters.',
      ref='4 C17'),
- 'C18': dict(tech='value-flow analysis (order-sensitive uses of sets, ambient values reaching the returned text), write-effect analysis, per-call construction rule',
+ 'C18': dict(tech='value-flow analysis (order-sensitive uses of sets, ambient values reaching the returned text), write-effect analysis, per-call construction rule; points-to rule: no container allocated at import time is mutated; stage objects constructed only under the pipeline call (call-graph dominance)',
      text='Static. No order-sensitive use of a set-typed value and no identity/time/environment-dependent value can reach the text the pipeline function returns; compiler modules write no module/class-level state; lexer, parser, visitor, compiler, emitter and their counters are created per call. CPython and ANTLR are trusted to be deterministic.',
      ref='4 C18'),
- 'C19': dict(tech='call-graph rule for the shared pipeline, value-flow + DFA inclusion for comment-safe writes, control-dependence rule for debug flags, constructor-argument agreement',
+ 'C19': dict(tech='call-graph rule for the shared pipeline, value-flow + DFA inclusion for comment-safe writes, control-dependence rule for debug flags, constructor-argument agreement on helper-inlined views; stage objects constructed only under the pipeline call; text-mode input rule; debug-only regions by data flow and comment-class inclusion',
      text='Static. CLI and library reach the emitter only through one pipeline function and main() writes its result unmodified per source in order; every other write to the output stream has a lexical class made of whole comment lines; debug flags control only debug writes and comment/blank header lines; all byte-decoding streams use one encoding; the tracing wrapper is transparent; a syntax error is a CompilerError with file, line, column that main() turns into a non-zero exit. click and the OS are trusted.',
      ref='4 C19'),
- 'C20': dict(tech='key-template agreement, loop-target use analysis, handler-enclosure rule on the query path',
+ 'C20': dict(tech='key-template agreement, loop-target use analysis, handler-enclosure rule on the query path; derived-table rule; sibling agreement of lookups; atoms compared by name; arity from inspect.signature',
      text='Static. One table and one call protocol: register_function, the load merge, query() and the emitted def line agree on the key templates; query() calls what it finds as f(*args) with args untouched and delegates; no consumer in the engine reads the value a predicate yields (loop targets unused or yielded on unchanged) and the bounded template check (C05/C06) shows emitted loops ignore it too; no handler sits between a predicate and the consumer of the query. That a particular Python predicate has the same solutions as a Prolog one is not decidable statically.',
      ref='4 C20'),
 }
@@ -97,15 +97,17 @@ manifest = dict(
                   kind_free_text='repository-specific static analysers on Python ast: program model and call graph, CFGs with generator '
                                  'throw/close edges and flag-product graphs, effect/alias/freshness analyses, inclusion-based value-flow with '
                                  'lexical classes decided on DFAs, template extraction from the emitter by abstract interpretation, symbolic '
-                                 'extraction of rewrite rules decided against a reference semantics, ANTLR grammar / generated-parser reader')],
+                                 'extraction of rewrite rules decided against a reference semantics, bounded partial evaluation of compiler and emitter source by '
+                                 'the checker\'s own AST evaluator on sample inputs, helper-inlined views, ANTLR grammar / generated-parser reader')],
     checks=checks,
     notes='All 20 properties are claimed with level "other": each check decides named structural clauses that are necessary '
           'conditions of the property (DESIGN.md section 4 lists, per property, what is decided and what is not). Exit 0 = all rule '
           'instances discharged; exit 1 + VIOLATION line = a rule instance positively violated (file, function, construct, rule, '
           'witness); exit 2 + ANALYSIS-ERROR = the analysis itself could not be carried out (never a silent pass). The pinned tree '
           'violated 15 of the 20 properties; every defect was repaired by a "fix:" commit in /repo and is listed as fixed in '
-          'known_findings.json. ./check selftest runs the seeded-defect / benign-rewrite variants; thorough tier = wider scopes, '
-          'ANTLR runtime facts re-derived from the installed package, plus the variants of the property.',
+          'known_findings.json. ./check selftest runs the seeded-defect / benign-rewrite variants; ./check corpus replays 120 independently written property-breaking '
+          'changes (seeded/) and 80 behaviour-preserving refactorings (benign/); thorough tier = wider scopes, ANTLR runtime facts '
+          're-derived from the installed package, plus the variants and corpus entries of the property.',
     not_applicable=[],
 )
 json.dump(manifest, open(os.path.join(ROOT, 'MANIFEST.json'), 'w'), indent=1)
